@@ -25,6 +25,10 @@ import (
 // the purpose of these requirements is to ensure that an attacker cannot trick
 // two different applications into using the same context string.
 func DeriveKey(context string, salt []byte, privKey crypto.PrivKey, out []byte) error {
+	if len(context) == 0 {
+		return errors.New("derive key: context cannot be empty")
+	}
+
 	spKey, err := crypto.PrivKeyToStdKey(privKey)
 	if err != nil {
 		return err
